@@ -59,11 +59,11 @@ fn main() {
             let sched: Value = serde_json::from_str(&line).unwrap_or_else(|e| panic!("bad schedule line: {e}"));
             run_no += 1;
             match sys.as_str() {
-                "cw1" => cw1::run_schedule(&sched, run_no, &mut out),
-                "cw20" => cw20::run_schedule(&sched, run_no, &mut out),
-                "cw3" => cw3::run_schedule(&sched, run_no, &mut out),
-                "ics20" => ics20::run_schedule(&sched, run_no, &mut out),
-                "cw4" => cw4::run_schedule(&sched, run_no, &mut out),
+                "cw1" => run_guarded(&mut out, |o| cw1::run_schedule(&sched, run_no, o)),
+                "cw20" => run_guarded(&mut out, |o| cw20::run_schedule(&sched, run_no, o)),
+                "cw3" => run_guarded(&mut out, |o| cw3::run_schedule(&sched, run_no, o)),
+                "ics20" => run_guarded(&mut out, |o| ics20::run_schedule(&sched, run_no, o)),
+                "cw4" => run_guarded(&mut out, |o| cw4::run_schedule(&sched, run_no, o)),
                 _ => {
                     eprintln!("unknown system {sys}");
                     std::process::exit(2);
@@ -96,11 +96,11 @@ fn main() {
     for _ in 0..random {
         run_no += 1;
         match sys.as_str() {
-            "cw1" => cw1::random_run(&mut rng, run_no, len, &mut out),
-            "cw20" => cw20::random_run(&mut rng, run_no, len, &mut out),
-            "cw3" => cw3::random_run(&mut rng, run_no, len, &mut out),
-            "ics20" => ics20::random_run(&mut rng, run_no, len, &mut out),
-            "cw4" => cw4::random_run(&mut rng, run_no, len, &mut out),
+            "cw1" => run_guarded(&mut out, |o| cw1::random_run(&mut rng, run_no, len, o)),
+            "cw20" => run_guarded(&mut out, |o| cw20::random_run(&mut rng, run_no, len, o)),
+            "cw3" => run_guarded(&mut out, |o| cw3::random_run(&mut rng, run_no, len, o)),
+            "ics20" => run_guarded(&mut out, |o| ics20::random_run(&mut rng, run_no, len, o)),
+            "cw4" => run_guarded(&mut out, |o| cw4::random_run(&mut rng, run_no, len, o)),
             _ => {
                 eprintln!("unknown system {sys}");
                 std::process::exit(2);
